@@ -239,9 +239,15 @@ def tie_model_l(ctx, cases, shard=60):
                 bad.append((v, d, c))
     detail = ""
     if bad:
+        os.makedirs(os.path.join(common.VERIF, "replays"), exist_ok=True)
+        with open(os.path.join(common.VERIF, "replays", "%s-model-L-disagreements.txt" % ctx.pid), "w") as fh:
+            for v, d, c in bad:
+                fh.write("%d\t%s\n%s\n" % (v, d, c))
         v, d, c = bad[0]
         why = {1: "completed operations differ", 2: "held node locks differ", 3: "model can still move in a quiescent/deadlocked state"}.get(v, "event %d rejected" % (v - 10))
-        detail = "%d traces disagree; first: %s: %s; case %s" % (len(bad), d, why, c[:900])
+        evs = c.split("], [")[1].split("; ") if "], [" in c else []
+        ctxt = evs[max(0, v - 10 - 9):v - 10 + 1] if v >= 10 else evs[-8:]
+        detail = "%d traces disagree; first: %s: %s; kinds %s; events around: %s" % (len(bad), d, why, c.split("], [")[0][4:], "; ".join(ctxt))
     ctx.obligation("model L (Conc/Model.v) accepts the recorded lock-event trace of every explored schedule (%d traces) and predicts the completed "
                    "operations and the held node locks" % len(good), okall and not bad and not unattributed, detail or ("%d traces with unattributed events" % unattributed if unattributed else ""))
     return bad
